@@ -1,3 +1,3 @@
 #!/bin/bash
 k=$1; P1=$2; P2=$3
-for i in 1 2 3 4 5 6; do [ -d /tmp/seed8_$k/_out/$i ] || continue; p=$P1; [ $i -ge 4 ] && p=$P2; /tmp/fx/verify_seed.sh /tmp/seed8_$k $i ${p}_t$i $p; done
+for i in 1 2 3 4 5 6; do [ -d /tmp/seed9_$k/_out/$i ] || continue; p=$P1; [ $i -ge 4 ] && p=$P2; /tmp/fx/verify_seed.sh /tmp/seed9_$k $i ${p}_r$i $p; done
